@@ -430,15 +430,15 @@ MUTANTS = [
          new="                if updated && false {\n                    vaccant_entry.insert(Entry {\n                        value: None,",
          expect="C09.b/WideColumnCache::remove/negative-entry-and-pin"),
     dict(id="C09.c-fill-overwrites-occupied", prop="C09", file=ST + "wide_column_cache.rs",
-         old="""                        tiny_lfu::Entry::Occupied(_) => {
-                            // Do nothing as there's an another thread inserted
-                            // an explicit value
-                        }""",
-         new="""                        tiny_lfu::Entry::Occupied(mut occ) => {
-                            if occ.get_mut().value.is_none() {
-                                let _ = occ.remove();
-                            }
-                        }""",
+         old="""                            tiny_lfu::Entry::Occupied(_) => {
+                                // Do nothing as there's an another thread
+                                // inserted an explicit value
+                            }""",
+         new="""                            tiny_lfu::Entry::Occupied(mut occ) => {
+                                if occ.get_mut().value.is_none() {
+                                    let _ = occ.remove();
+                                }
+                            }""",
          expect="C09.c/WideColumnCache::get/fill-only-when-vacant"),
     dict(id="C09.d-notify-before-commit", prop="C09", file=ST + "write_manager/write_behind.rs",
          old="""        // commit physical batch
